@@ -9,7 +9,10 @@ for ID in $IDS; do
   P="$HERE/seeded/$ID/patch.diff"; [ -f "$HERE/seeded/_rebased/$ID.diff" ] && P="$HERE/seeded/_rebased/$ID.diff"
   PROP=${ID%%-*}
   git -C "$REPO" checkout -q -- . 
-  if ! git -C "$REPO" apply "$P" 2>/dev/null; then echo "$ID $PROP PATCH-DOES-NOT-APPLY"; continue; fi
+  if ! git -C "$REPO" apply "$P" 2>/dev/null; then
+    if ! git -C "$REPO" apply --3way "$P" >/dev/null 2>&1; then echo "$ID $PROP PATCH-DOES-NOT-APPLY"; git -C "$REPO" reset -q --hard HEAD; continue; fi
+    git -C "$REPO" reset -q
+  fi
   OUT=$(VERIF_REPO_ROOT="$REPO" "$HERE/bin/check" "$PROP" --tier "$TIER" 2>&1); RC=$?
   NV=$(echo "$OUT" | grep -c '^VIOLATION')
   H=$(echo "$OUT" | grep '^VIOLATION' | sed 's/.*replays\/[^/]*\///; s/-[0-9a-f]*\.json//' | sort | uniq -c | tr '\n' ' ')
